@@ -34,7 +34,7 @@ import specs.indep as indep
 from bounded.common import match_known
 
 UTC = timezone.utc
-TESTDATA = '/repo/tests/testdata'
+TESTDATA = os.path.join(os.environ.get('PYVC_REPO', '/repo'), 'tests/testdata')
 PASSPHRASES = ['QwertyUiop', 'correct horse battery staple', 'passphrase', 'test', '']
 PW = 'fingerprints-pw é'
 
